@@ -178,7 +178,7 @@ class CursorMod:
             cur = d0
             if c == "core::iter::traits::iterator::Iterator::map" and cur[2] == "fwd":
                 # token-wise map: must preserve (kind, text)
-                tokv = ("tuple", (("abs", "anykind"), ("abs", "toktext")))
+                tokv = ("tuple", (("abs", "anykind"), ("abs", "toktext", "any")))
                 res = I.apply(args[1], [tokv], st, n)
                 ok = len(res) == 1 and res[0][0] == OK and res[0][1] == tokv
                 if not ok:
@@ -211,7 +211,7 @@ class CursorMod:
                     if k == EOF:
                         out.append((OK, none(), s2))
                     else:
-                        out.append((OK, some(("tuple", (self.kind_val(k), ("abs", "toktext-peek")))), s2))
+                        out.append((OK, some(("tuple", (self.kind_val(k), ("abs", "toktext-peek", k)))), s2))
                 return out
             # ---- consume
             if c in ("alloc::vec::Vec::<T, A>::pop",) or c.endswith("as core::iter::traits::iterator::Iterator>::next") or c == "core::iter::traits::iterator::Iterator::next":
@@ -233,10 +233,11 @@ class CursorMod:
                     pend = s2.mon.get("pending")
                     if pend is not None and self.mon_conserve:
                         self.report("O-conserve/drop", "token %s is consumed while the previously consumed %s was never added to the tree" % (k, pend[0]), "", sp)
-                    s2 = s2.setmon("pending", (k, role2))
+                    if self.mon_conserve or self.keep_pending:
+                        s2 = s2.setmon("pending", (k, role2))
                     if self.on_consume is not None:
                         s2 = self.on_consume(self, I, s2, k, role2, sp)
-                    out.append((OK, some(("tuple", (self.kind_val(k), ("abs", "toktext")))), s2))
+                    out.append((OK, some(("tuple", (self.kind_val(k), ("abs", "toktext", k)))), s2))
                 return out
             if c in ("alloc::vec::Vec::<T, A>::is_empty", "core::slice::<impl [T]>::is_empty"):
                 place = self.cursor_place(I, st, a0)
@@ -245,11 +246,13 @@ class CursorMod:
                     s2 = I.write(st, place, ncur) if place else st
                     out.append((OK, ("bool", k == EOF), s2))
                 return out
-            if c in self.summaries:
-                pass
+            if c in self.summaries or c in self.facts.fns:
+                pass      # validated summary, or a workspace function that will be inlined
             else:
                 self.report("O-conserve/escape", "token sequence handed to an operation outside the cursor vocabulary: " + c, "", sp)
                 return [(OK, unk("cursor-escape"), st)]
+            if c in self.facts.fns and c not in self.summaries:
+                return None
         # helper summaries (validated separately): fn(self) with self.tokens cursor
         if c in self.summaries:
             kindsum, S, field = self.summaries[c]
@@ -284,6 +287,7 @@ class CursorMod:
         return self.extra_intrinsic(I, c, args, st, n)
 
     mon_conserve = True
+    keep_pending = False
     on_consume = None
 
     def all_kinds(self):
@@ -344,7 +348,7 @@ class BuilderMixin:
             if pend is None:
                 self.report("O-conserve/invent", "builder.token(%s, ..) adds text that was not consumed from the input" % k, str(text)[:60], sp)
                 return [(OK, UNIT, st)]
-            if text != ("abs", "toktext") or k != pend[0]:
+            if text != ("abs", "toktext", pend[0]) or k != pend[0]:
                 self.report("O-conserve/alter", "consumed token %s is added to the tree as (%s, %s)" % (pend[0], k, str(text)[:40]), "", sp)
             s2 = st.setmon("pending", None)
             if self.on_token is not None:
